@@ -384,7 +384,7 @@ func exploreConc(cfg Config, header string, prefix []string, conns []int, post [
 			if strings.HasPrefix(l, "D ") {
 				f := strings.SplitN(l, " ", 3)
 				inbox[f[1]] = append(inbox[f[1]], l)
-			} else if strings.HasPrefix(l, "S ") || strings.HasPrefix(l, "O ") || strings.HasPrefix(l, "Q ") {
+			} else if strings.HasPrefix(l, "S ") || strings.HasPrefix(l, "O ") || strings.HasPrefix(l, "Q ") || strings.HasPrefix(l, "X ") || strings.HasPrefix(l, "G ") {
 				sig = append(sig, l)
 			}
 		}
